@@ -20,7 +20,7 @@
 (***************************************************************************)
 EXTENDS Integers, Sequences, FiniteSets, TLC, Json
 
-CONSTANTS MaxRows, Backends, Rich
+CONSTANTS MaxRows, MaxRowsSub, Backends, Rich
 
 Null == -9
 ValsA == {0, 1, 2, Null}
@@ -70,7 +70,7 @@ vars == <<backend, mode, S, D, h, t, dev, rows, bad, k, out>>
 AtMostOneNull(a) == Cardinality({i \in DOMAIN a : a[i] = Null}) <= 1
 Init ==
   /\ backend \in Backends /\ mode \in {"drop", "subsample"} /\ S \in Schemas(backend)
-  /\ \E n \in 1..MaxRows : /\ D \in [a : [1..n -> ValsA], b : [1..n -> ValsB]]
+  /\ \E n \in 1..(IF mode = "drop" THEN MaxRows ELSE MaxRowsSub) : /\ D \in [a : [1..n -> ValsA], b : [1..n -> ValsB]]
                            /\ AtMostOneNull(D.a)          \* null-null duplicates: Series slice + DuplicateNullsNotReported
                            /\ IF mode = "subsample"
                               THEN /\ h \in -1..n /\ t \in -1..n /\ ~(h = -1 /\ t = -1)
@@ -107,9 +107,18 @@ ShippedVerdict ==
   LET sel == IF backend = "polars" /\ mode = "subsample" THEN DedupByValue(D, rows) ELSE rows
   IN IF \A j \in 1..Len(Stages) : Fail(Stages[j], S, D, sel) = {} THEN "ok" ELSE "raises"
 
+(* deviation PolarsDropKeepsJointDuplicates: the joint-uniqueness error of the polars back end carries no   *)
+(* per-row check output, so drop_invalid_rows cannot remove the duplicated rows                            *)
+ShippedKept ==
+  IF backend = "polars"
+  THEN SetToSeq({i \in DOMAIN D.a : \A j \in 1..Len(Stages) : Stages[j] = "joint" \/ i \notin Fail(Stages[j], S, D, DOMAIN D.a)})
+  ELSE out.kept
+
 Emit == Done =>
   PrintT(ToJson([kind |-> "rows", backend |-> backend, mode |-> mode, schema |-> S, a |-> D.a, b |-> D.b,
                  head |-> h, tail |-> t, expect |-> out,
                  asis |-> IF mode = "subsample" THEN ShippedVerdict ELSE out.kind,
-                 devs |-> IF mode = "subsample" /\ ShippedVerdict # out.kind THEN {"PolarsSubsampleDedupByValue"} ELSE {}]))
+                 asis_kept |-> IF mode = "drop" THEN ShippedKept ELSE <<>>,
+                 devs |-> (IF mode = "subsample" /\ ShippedVerdict # out.kind THEN {"PolarsSubsampleDedupByValue"} ELSE {})
+                          \cup (IF mode = "drop" /\ ShippedKept # out.kept THEN {"PolarsDropKeepsJointDuplicates"} ELSE {})]))
 =============================================================================
